@@ -40,7 +40,9 @@ func (f fault) shape() string {
 func faults() []fault {
 	var fs []fault
 	for _, depth := range []int{1, 2} {
-		for _, n := range []string{"../x", "a/b", "", "../../escape"} {
+		// plainly invalid names, and names that only become invalid once their
+		// non-printable characters are dropped (see collapsingNames)
+		for _, n := range append([]string{"../x", "a/b", "", "../../escape"}, collapsingNames...) {
 			fs = append(fs, fault{"nested-name", depth, n})
 		}
 	}
@@ -180,7 +182,7 @@ func describeFault(f fault) string {
 	if f.Kind == "schema" {
 		return fmt.Sprintf("values.schema.json = %q (not JSON) in %s", f.Bad, where)
 	}
-	return fmt.Sprintf("%s named %q", where, f.Bad)
+	return fmt.Sprintf("%s named %+q", where, f.Bad)
 }
 
 // runFaults enumerates deviation sets (<= 1, as in the invalid section) x faults x entry points.
@@ -213,7 +215,7 @@ func runFaults(c *core.Ctx) {
 				}
 				f := f
 				rd := replayData{Mode: "fault", Devs: ds, Entry: entry, Fault: &f}
-				canon := fmt.Sprintf("fault|%v|%s|%d|%q|%s", ds, f.Kind, f.Depth, f.Bad, entry)
+				canon := fmt.Sprintf("fault|%v|%s|%d|%+q|%s", ds, f.Kind, f.Depth, f.Bad, entry)
 				c.Mark(canon)
 				c.Distinct(canon)
 				c.Eval(1)
